@@ -1132,3 +1132,620 @@ Proof.
   intros p c. unfold hoists. rewrite cbu_go_app, (cbu_flat_map hoist_setup _ hoist_setup_ok),
     (cbu_flat_map hoist_loop _ hoist_loop_ok). reflexivity.
 Qed.
+
+Lemma name_eqb_eq : forall a b, name_eqb a b = true -> a = b.
+Proof.
+  induction a as [|x a IH]; intros [|y b] H; try discriminate; [reflexivity|].
+  cbn [name_eqb] in H. apply andb_true_iff in H as [H1 H2]. apply Z.eqb_eq in H1. subst y.
+  rewrite (IH b H2). reflexivity.
+Qed.
+
+Lemma flat_map_nil_inv : forall (A B : Type) (f : A -> list B) l, flat_map f l = [] -> forall x, In x l -> f x = [].
+Proof.
+  intros A B f l. induction l as [|a r IH]; intros H x Hx; [destruct Hx|]. cbn [flat_map] in H.
+  apply app_eq_nil in H as [H1 H2]. destruct Hx as [<-|Hx]; [exact H1|apply IH; assumption].
+Qed.
+
+Section CBU.
+  Variable tab : list decl.
+
+  Definition Inv (c : list (res * Z)) (P : name -> Prop) : Prop :=
+    forall nm d, P nm -> find_decl nm tab = Some d -> forallb (safe c) (dev_use d) = true.
+
+  Lemma Inv_sub : forall c c' P, sub c c' -> Inv c P -> Inv c' P.
+  Proof. intros c c' P Hs H nm d Hp Hf. eapply safe_all_sub; [exact Hs|eapply H; eauto]. Qed.
+
+  Lemma Inv_weaken : forall c (P P' : name -> Prop), (forall nm, P nm -> P' nm) -> Inv c P' -> Inv c P.
+  Proof. intros c P P' Hi H nm d Hp Hf. eapply H; eauto. Qed.
+
+  Lemma uses_safe : forall c P nm, Inv c P -> P nm -> forallb (safe c) (uses tab (Some nm)) = true.
+  Proof.
+    intros c P nm Hi Hp. unfold uses. destruct (find_decl nm tab) as [d|] eqn:E; [|reflexivity]. eapply Hi; eauto.
+  Qed.
+
+  Definition free_ok (c : list (res * Z)) (P : name -> Prop) (s : stmt) : Prop :=
+    decls_stmt s = [] -> (forall nm, In nm (devs_stmt s) -> P nm) ->
+    forall m top ins d vs, forallb (safe c) (tr (run_stmt m tab top ins d s vs)) = true.
+
+  Lemma free_list_safe : forall c P l, Forall (free_ok c P) l ->
+    (forall s, In s l -> decls_stmt s = []) -> (forall s nm, In s l -> In nm (devs_stmt s) -> P nm) ->
+    forall m top ins d vs, forallb (safe c) (tr (run_list m tab top ins d l vs)) = true.
+  Proof.
+    intros c P l HF. induction HF as [|s r Hs _ IH]; intros Hd Hn m top ins d vs; [reflexivity|].
+    cbn [run_list].
+    pose proof (Hs (Hd s (or_introl eq_refl)) (fun nm H => Hn s nm (or_introl eq_refl) H) m top ins d vs) as H1.
+    destruct (run_stmt m tab top ins d s vs) as [[v1 t1] [|]]; [exact H1|].
+    assert (IH' := IH (fun s' H => Hd s' (or_intror H)) (fun s' nm H => Hn s' nm (or_intror H)) m top ins
+                      (d ++ assigned_stmt s) v1).
+    destruct (run_list m tab top ins (d ++ assigned_stmt s) r v1) as [[v2 t2] b2].
+    unfold tr in *. cbn [fst snd] in *. rewrite forallb_app, H1, IH'. reflexivity.
+  Qed.
+
+  Lemma free_stmt_safe : forall c P, Inv c P -> forall s, free_ok c P s.
+  Proof.
+    intros c P Hi s. induction s as [id dev|dd|x e|dv x|l| |x b IHb|cn b IHb] using stmt_ind';
+      intros Hd Hn m top ins d vs; unfold tr.
+    - cbn [run_stmt fst snd]. rewrite forallb_app. cbn [forallb safe]. rewrite andb_true_r.
+      destruct dev as [nm|]; [|reflexivity]. apply (uses_safe c P nm Hi). apply Hn. left. reflexivity.
+    - discriminate.
+    - cbn [run_stmt]. destruct (eval e vs). reflexivity.
+    - cbn [run_stmt]. destruct (vread x vs). cbn [fst snd]. rewrite forallb_app. cbn [forallb safe]. rewrite andb_true_r.
+      apply (uses_safe c P dv Hi). apply Hn. left. reflexivity.
+    - cbn [run_stmt fst snd]. apply (uses_safe c P l Hi). apply Hn. left. reflexivity.
+    - reflexivity.
+    - rewrite run_if. destruct (vread x _) as [c0 vs1]. destruct (c0 =? 0); [reflexivity|].
+      apply (free_list_safe c P b IHb).
+      + intros s Hs. exact (flat_map_nil_inv _ _ decls_stmt b Hd s Hs).
+      + intros s nm Hs Hin. apply Hn. cbn [devs_stmt]. apply in_flat_map. exists s. split; assumption.
+    - rewrite run_for. generalize (pre_reset m top ins d b vs).
+      assert (HL : forall v, forallb (safe c) (tr (run_list m tab false ins d b v)) = true).
+      { intro v. apply (free_list_safe c P b IHb).
+        - intros s Hs. exact (flat_map_nil_inv _ _ decls_stmt b Hd s Hs).
+        - intros s nm Hs Hin. apply Hn. cbn [devs_stmt]. apply in_flat_map. exists s. split; assumption. }
+      clear Hd Hn. induction cn as [|k IHk]; intro v; [reflexivity|].
+      cbn [for_iter]. pose proof (HL v) as HLv.
+      destruct (run_list m tab false ins d b v) as [[v1 t1] [|]]; [exact HLv|].
+      specialize (IHk v1). destruct (for_iter m tab ins d b k v1) as [[v2 t2] b2].
+      unfold tr in *. cbn [fst snd] in *. rewrite forallb_app, HLv, IHk. reflexivity.
+  Qed.
+
+  Lemma ndf_cases : forall s, nested_decl_free s = true ->
+    (exists d, s = SDecl d) \/ (decls_stmt s = [] /\ top_decl s = []).
+  Proof.
+    intros s H. destruct s; try (right; split; reflexivity).
+    - left. eexists. reflexivity.
+    - right. unfold nested_decl_free in H. destruct (decls_stmt (SIf x body)); [split; reflexivity|discriminate].
+    - right. unfold nested_decl_free in H. destruct (decls_stmt (SFor cnt body)); [split; reflexivity|discriminate].
+  Qed.
+
+  Lemma inplace_loop_safe : forall c d, forallb (safe c) (inplace_cfg true false d) = true.
+  Proof. intros c [k nm pins h]. destruct k; reflexivity. Qed.
+
+  (* statements of loop_body (and anything else that runs after setup()) *)
+  Lemma loop_ann_safe : forall c P, Inv c P -> forall l,
+    (forall s, In s (map snd l) -> nested_decl_free s = true /\ forall nm, In nm (devs_stmt s) -> P nm) ->
+    forall m v, forallb (safe c) (tr (run_ann m tab false l v)) = true.
+  Proof.
+    intros c P Hi l. induction l as [|[d s] r IH]; intros Hl m v; [reflexivity|].
+    cbn [run_ann].
+    assert (H1 : forallb (safe c) (tr (run_stmt m tab true false d s v)) = true).
+    { destruct (Hl s (or_introl eq_refl)) as [Hn Hd].
+      destruct (ndf_cases s Hn) as [[d0 ->]|[Hf _]].
+      - unfold tr. cbn [run_stmt fst snd]. apply inplace_loop_safe.
+      - apply (free_stmt_safe c P Hi s Hf Hd). }
+    destruct (run_stmt m tab true false d s v) as [[v1 t1] [|]]; [exact H1|].
+    assert (IH' := IH (fun s' H => Hl s' (or_intror H)) m v1).
+    destruct (run_ann m tab false r v1) as [[v2 t2] b2].
+    unfold tr in *. cbn [fst snd] in *. rewrite forallb_app, H1, IH'. reflexivity.
+  Qed.
+
+  Definition memP (known : list name) : name -> Prop := fun nm => mem_name nm known = true.
+
+  (* setup_body, statement by statement: in-place configuration precedes the first command *)
+  Lemma setup_ann_cbu : forall l c known m v,
+    Inv c (memP known) ->
+    (forall d, In d (flat_map top_decl (map snd l)) ->
+       find_decl (d_name d) tab = Some d /\ forall r mo, In (ECfg r mo) (hoist_setup d) -> In (r, mo) c) ->
+    forallb nested_decl_free (map snd l) = true ->
+    setup_order known (map snd l) = true ->
+    ann_ok false 0 l = true ->
+    cbu_go c (tr (run_ann m tab true l v)) = true /\
+    Inv (cfgs (tr (run_ann m tab true l v)) c)
+        (fun nm => mem_name nm (map d_name (flat_map top_decl (map snd l))) = true \/ mem_name nm known = true).
+  Proof.
+    induction l as [|[d0 s] r IH]; intros c known m v Hi Hdecl Hndf Hord Hok.
+    - split; [reflexivity|]. eapply Inv_weaken; [|exact Hi]. intros nm [H|H]; [discriminate|exact H].
+    - cbn [map snd forallb] in Hndf. apply andb_true_iff in Hndf as [Hn1 Hn2].
+      cbn [map snd setup_order] in Hord. apply andb_true_iff in Hord as [Ho1 Ho2].
+      cbn [ann_ok forallb snd] in Hok. apply andb_true_iff in Hok as [Hb1 Hb2]. fold (ann_ok false 0 r) in Hb2.
+      cbn [run_ann]. pose proof (bg_stmt_nobreak s false 0 m tab true true d0 v Hb1 base_setup) as Hnb.
+      assert (Hdev : forall nm, In nm (devs_stmt s) -> memP known nm).
+      { intros nm Hin. unfold names_in in Ho1. rewrite forallb_forall in Ho1. exact (Ho1 nm Hin). }
+      destruct (ndf_cases s Hn1) as [[d ->]|[Hf Htd]].
+      + (* a device declaration *)
+        cbn [run_stmt] in *. cbn [map snd flat_map top_decl] in *.
+        destruct (Hdecl d (or_introl eq_refl)) as [Hfd Hh].
+        set (t1 := inplace_cfg true true d).
+        assert (Ht1 : cbu_go c t1 = true).
+        { apply cbu_go_safe. subst t1. destruct d as [k nm pins h]. destruct k; try reflexivity;
+            try (apply forallb_forall; intros e He; apply in_map_iff in He as (p & <- & _); reflexivity).
+          - unfold inplace_cfg. cbn [d_kind d_pins app]. apply forallb_forall. intros e He.
+            apply in_wr in He as (p & -> & Hp). cbn [safe]. apply (has_cfg_in c (RPin p) 1 true); [|reflexivity].
+            apply Hh. unfold hoist_setup. cbn [d_kind d_pins]. apply in_or_app. left. apply in_pm, Hp.
+          - destruct pins as [|t [|e pr]]; reflexivity. }
+        assert (Hi1 : Inv (cfgs t1 c) (memP (d_name d :: known))).
+        { intros nm d' Hp Hf'. unfold memP in Hp. cbn [mem_name existsb] in Hp. apply orb_true_iff in Hp as [Hp|Hp].
+          - apply name_eqb_eq in Hp. subst nm. rewrite Hfd in Hf'. inversion Hf'; subst d'.
+            apply (cover_safe d _ _ (cover_setup d)). intros r0 mo Hin. apply in_app_or in Hin as [Hin|Hin].
+            + apply sub_cfgs. apply Hh. exact Hin.
+            + apply in_cfgs. exact Hin.
+          - eapply safe_all_sub; [apply sub_cfgs|]. eapply Hi; eauto. }
+        destruct (IH (cfgs t1 c) (d_name d :: known) m v Hi1) as [Hc2 Hi2]; try assumption.
+        { intros d' Hin. destruct (Hdecl d' (or_intror Hin)) as [Ha Hb]. split; [exact Ha|].
+          intros r0 mo H0. apply sub_cfgs. apply Hb. exact H0. }
+        destruct (run_ann m tab true r v) as [[v2 t2] b2]. unfold tr in *. cbn [fst snd] in *.
+        split.
+        * rewrite cbu_go_app. fold t1. rewrite Ht1, Hc2. reflexivity.
+        * rewrite cfgs_app. eapply Inv_weaken; [|exact Hi2]. unfold mem_name. intros nm [H|H].
+          -- cbn [map existsb] in H. apply orb_true_iff in H as [H|H].
+             ++ right. cbn [existsb]. rewrite H. reflexivity.
+             ++ left. exact H.
+          -- right. cbn [existsb]. rewrite H. apply orb_true_r.
+      + (* any other statement: no declaration inside *)
+        pose proof (free_stmt_safe c (memP known) Hi s Hf Hdev m true true d0 v) as Hs1.
+        cbn [map snd flat_map] in *. rewrite Htd in *. cbn [app map] in *.
+        destruct (run_stmt m tab true true d0 s v) as [[v1 t1] b]. cbn [snd] in Hnb. subst b.
+        unfold tr in Hs1. cbn [fst snd] in Hs1.
+        assert (Hi1 : Inv (cfgs t1 c) (memP known)) by (eapply Inv_sub; [apply sub_cfgs|exact Hi]).
+        destruct (IH (cfgs t1 c) known m v1 Hi1) as [Hc2 Hi2]; try assumption.
+        { intros d' Hin. destruct (Hdecl d' Hin) as [Ha Hb]. split; [exact Ha|].
+          intros r0 mo H0. apply sub_cfgs. apply Hb. exact H0. }
+        destruct (run_ann m tab true r v1) as [[v2 t2] b2]. unfold tr in *. cbn [fst snd] in *.
+        split.
+        * rewrite cbu_go_app, (cbu_go_safe _ _ Hs1), Hc2. reflexivity.
+        * rewrite cfgs_app. exact Hi2.
+  Qed.
+End CBU.
+
+(* ------------------------------------------------------------------ program-level facts *)
+Lemma split_d_snd : forall its d,
+  map snd (fst (split_d d its)) = fst (split its) /\ map snd (snd (split_d d its)) = snd (split its).
+Proof.
+  induction its as [|it r IH]; intro d; [split; reflexivity|]. destruct it as [s|body|f body].
+  - cbn [split_d split]. specialize (IH (d ++ assigned_stmt s)).
+    destruct (split_d (d ++ assigned_stmt s) r) as [a b]. destruct (split r) as [a' b']. cbn [fst snd] in *.
+    destruct IH as [IH1 IH2]. split; [cbn [map snd]; rewrite IH1; reflexivity|exact IH2].
+  - rewrite split_d_main. cbn [split]. specialize (IH (d ++ flat_map assigned_stmt body)).
+    destruct (split_d (d ++ flat_map assigned_stmt body) r) as [a b]. destruct (split r) as [a' b']. cbn [fst snd] in *.
+    destruct IH as [IH1 IH2]. split; [exact IH1|]. rewrite map_app, IH2. f_equal.
+    clear. revert d. induction body as [|s l IH]; intro d; [reflexivity|]. cbn [ann map snd]. rewrite IH. reflexivity.
+  - cbn [split_d split]. apply IH.
+Qed.
+
+Lemma split_incl : forall its s, In s (fst (split its)) \/ In s (snd (split its)) -> In s (all_stmts its).
+Proof.
+  induction its as [|it r IH]; intros s H; [destruct H as [[]|[]]|].
+  unfold all_stmts. cbn [flat_map]. fold (all_stmts r). apply in_or_app.
+  destruct it as [s0|body|f body]; cbn [split item_stmts] in *; destruct (split r) as [a b]; cbn [fst snd] in *.
+  - destruct H as [[<-|H]|H]; [left; left; reflexivity|right; apply IH; left; exact H|right; apply IH; right; exact H].
+  - destruct H as [H|H]; [right; apply IH; left; exact H|].
+    apply in_app_or in H as [H|H]; [left; exact H|right; apply IH; right; exact H].
+  - right. apply IH. exact H.
+Qed.
+
+Lemma top_decl_in : forall l d, In d (flat_map top_decl l) -> In (SDecl d) l.
+Proof.
+  intros l d H. apply in_flat_map in H as (s & Hs & Hd). destruct s; try destruct Hd.
+  - subst d0. exact Hs.
+  - destruct H.
+Qed.
+
+Lemma find_decl_unique : forall tab d, nodup_names (map d_name tab) = true -> In d tab ->
+  find_decl (d_name d) tab = Some d.
+Proof.
+  induction tab as [|d0 r IH]; intros d Hn Hin; [destruct Hin|].
+  cbn [map nodup_names] in Hn. apply andb_true_iff in Hn as [Hn1 Hn2]. cbn [find_decl].
+  destruct Hin as [<-|Hin]; [rewrite name_eqb_refl; reflexivity|].
+  destruct (name_eqb (d_name d) (d_name d0)) eqn:E; [|apply IH; assumption].
+  exfalso. apply name_eqb_eq in E. apply negb_true_iff in Hn1.
+  assert (mem_name (d_name d0) (map d_name r) = true); [|congruence].
+  unfold mem_name. apply existsb_exists. exists (d_name d). split; [apply in_map; exact Hin|].
+  rewrite E. apply name_eqb_refl.
+Qed.
+
+Lemma find_decl_some : forall nm l d, find_decl nm l = Some d -> In d l /\ name_eqb nm (d_name d) = true.
+Proof.
+  induction l as [|d0 r IH]; intros d H; [discriminate|]. cbn [find_decl] in H.
+  destruct (name_eqb nm (d_name d0)) eqn:E.
+  - inversion H; subst d0. split; [left; reflexivity|exact E].
+  - destruct (IH d H) as [H1 H2]. split; [right; exact H1|exact H2].
+Qed.
+
+Lemma find_func_in : forall f fs s, In s (find_func f fs) -> In s (flat_map snd fs).
+Proof.
+  induction fs as [|[g b] r IH]; intros s H; [destruct H|]. cbn [find_func] in H. cbn [flat_map snd].
+  apply in_or_app. destruct (name_eqb f g); [left; exact H|right; apply IH; exact H].
+Qed.
+
+Lemma funcs_incl : forall its s, In s (flat_map snd (funcs its)) -> In s (all_stmts its).
+Proof.
+  induction its as [|it r IH]; intros s H; [destruct H|].
+  unfold all_stmts. cbn [flat_map]. fold (all_stmts r). apply in_or_app.
+  destruct it as [s0|body|f body]; cbn [funcs item_stmts] in *.
+  - right. apply IH. exact H.
+  - right. apply IH. exact H.
+  - cbn [flat_map snd] in H. apply in_app_or in H as [H|H]; [left; exact H|right; apply IH; exact H].
+Qed.
+
+Lemma mem_name_app : forall x a b, mem_name x (a ++ b) = mem_name x a || mem_name x b.
+Proof. intros. unfold mem_name. apply existsb_app. Qed.
+
+Lemma safe_handler_events : forall tab c P body, Inv tab c P ->
+  (forall s nm, In s body -> In nm (devs_stmt s) -> P nm) ->
+  forallb (safe c) (handler_events tab body) = true.
+Proof.
+  intros tab c P body Hi Hb. unfold handler_events. induction body as [|s r IH]; [reflexivity|].
+  cbn [flat_map]. rewrite forallb_app, IH, andb_true_r by (intros s' nm H; apply Hb; right; exact H).
+  destruct s; try reflexivity. rewrite forallb_app. cbn [forallb safe]. rewrite andb_true_r.
+  destruct dev as [nm|]; [|reflexivity].
+  pose proof (uses_safe tab c P nm Hi (Hb _ nm (or_introl eq_refl) (or_introl eq_refl))) as Hs.
+  pose proof (use_uses tab (Some nm)) as Hu.
+  induction (uses tab (Some nm)) as [|e t IHt]; [reflexivity|].
+  cbn [forallb map] in *. apply andb_true_iff in Hs as [Hs1 Hs2]. apply andb_true_iff in Hu as [Hu1 Hu2].
+  rewrite (IHt Hs2 Hu2), andb_true_r. destruct e; try discriminate. exact Hs1.
+Qed.
+
+Lemma safe_poll_all : forall inp p c bs h,
+  (forall b d pin r, button_decl p b = Some d -> d_pins d = pin :: r -> has_cfg c (RPin pin) false = true) ->
+  (forall f, forallb (safe c) (handler_events (p_tab p) (find_func f (p_funcs p))) = true) ->
+  forallb (safe c) (snd (poll_all inp p bs h)) = true.
+Proof.
+  intros inp p c bs h Hb Hf. revert h. induction bs as [|b r IH]; intro h; [reflexivity|].
+  cbn [poll_all]. unfold poll_one.
+  destruct (button_decl p b) as [d|] eqn:Eb.
+  - destruct (d_pins d) as [|pin pr] eqn:Ep.
+    + specialize (IH h). destruct (poll_all inp p r h) as [h2 t2]. exact IH.
+    + destruct (sample inp pin h) as [lvl h1]. specialize (IH (set_prev b lvl h1)).
+      destruct (poll_all inp p r (set_prev b lvl h1)) as [h2 t2]. cbn [snd app forallb safe] in *.
+      rewrite (Hb b d pin pr Eb Ep). cbn [andb]. rewrite forallb_app, IH, andb_true_r.
+      destruct (lvl && negb (blookup b (h_prev h1))); [|reflexivity].
+      destruct (d_handler d); [apply Hf|reflexivity].
+  - specialize (IH h). destruct (poll_all inp p r h) as [h2 t2]. exact IH.
+Qed.
+
+Lemma passes_safe : forall inp p c n v h,
+  (forall v h, forallb (safe c) (snd (fst (run_pass MC inp p v h))) = true) ->
+  forallb (safe c) (concat (snd (run_passes MC inp p n v h))) = true.
+Proof.
+  intros inp p c n. induction n as [|n IH]; intros v h Hp; [reflexivity|].
+  cbn [run_passes]. pose proof (Hp v h) as H1. destruct (run_pass MC inp p v h) as [[[v1 h1] t] brk].
+  specialize (IH v1 h1 Hp). destruct (run_passes MC inp p n v1 h1) as [v2 ts].
+  cbn [fst snd concat] in *. rewrite forallb_app, H1, IH. reflexivity.
+Qed.
+
+Lemma in_hoist_setup : forall p d e, In d (p_top_setup p) -> In e (hoist_setup d) -> In e (hoists p).
+Proof. intros p d e Hd He. unfold hoists. apply in_or_app. left. apply in_flat_map. exists d. split; assumption. Qed.
+
+Lemma in_hoist_loop : forall p d e, In d (p_top_loop p) -> In e (hoist_loop d) -> In e (hoists p).
+Proof. intros p d e Hd He. unfold hoists. apply in_or_app. right. apply in_flat_map. exists d. split; assumption. Qed.
+
+Lemma is_button_kind : forall d, is_button d = true -> d_kind d = KButton.
+Proof. intros [k nm pins h] H. destruct k; try discriminate. reflexivity. Qed.
+
+Lemma is_lcd_kind : forall d, is_lcd d = true -> d_kind d = KLcd.
+Proof. intros [k nm pins h] H. destruct k; try discriminate. reflexivity. Qed.
+
+Lemma configured_before_use_cbu : forall inp n its,
+  transl_ok its = true -> well_placed its = true -> cbu (exec inp n its) = true.
+Proof.
+  intros inp n its Hok Hwp. unfold well_placed in Hwp.
+  set (p := transl its) in *. set (tab := p_tab p).
+  repeat (apply andb_true_iff in Hwp as [Hwp ?]).
+  rename H into Hfun, H0 into Hfn, H1 into Hln, H2 into Hso, H3 into Hhk, H4 into Hndf, Hwp into Hnd.
+  assert (Hndf' : forall s, In s (all_stmts its) -> nested_decl_free s = true)
+    by (rewrite forallb_forall in Hndf; exact Hndf).
+  destruct (split_d_snd its []) as [Hs1 Hs2].
+  assert (Hps : map snd (p_setup p) = fst (split its)) by exact Hs1.
+  assert (Hpl : map snd (p_loop p) = snd (split its)) by exact Hs2.
+  assert (Htab : forall d, In d (p_top_setup p) \/ In d (p_top_loop p) -> find_decl (d_name d) tab = Some d).
+  { intros d Hd. apply find_decl_unique; [exact Hnd|].
+    assert (Hsd : In (SDecl d) (all_stmts its)).
+    { apply split_incl. destruct Hd as [Hd|Hd]; [left|right]; apply top_decl_in; exact Hd. }
+    subst tab. change (p_tab p) with (flat_map decls_stmt (all_stmts its)).
+    apply in_flat_map. exists (SDecl d). split; [exact Hsd|left; reflexivity]. }
+  set (cH := cfgs (hoists p) []).
+  assert (HcH : forall e r m, In e (hoists p) -> e = ECfg r m -> In (r, m) cH).
+  { intros e r m He ->. apply in_cfgs. exact He. }
+  (* setup() *)
+  destruct (transl_ok_split its [] Hok) as [Hoks Hokl].
+  destruct (setup_ann_cbu tab (p_setup p) cH [] MC v0) as [Hcs His].
+  { intros nm d H. discriminate. }
+  { rewrite Hps. intros d Hd. split; [apply Htab; left; exact Hd|].
+    intros r mo Hin. apply (HcH _ r mo (in_hoist_setup p d _ Hd Hin) eq_refl). }
+  { rewrite Hps. apply forallb_forall. intros s Hs. apply Hndf', split_incl. left. exact Hs. }
+  { rewrite Hps. exact Hso. }
+  { exact Hoks. }
+  set (S := tr (run_ann MC tab true (p_setup p) v0)) in *. set (cS := cfgs S cH) in *.
+  set (known := map d_name (p_top_setup p) ++ map d_name (p_top_loop p)) in *.
+  assert (Hinv : Inv tab cS (memP known)).
+  { intros nm d Hp Hf. unfold memP, known in Hp. rewrite mem_name_app in Hp. apply orb_true_iff in Hp as [Hp|Hp].
+    - apply (His nm d); [left; rewrite Hps; exact Hp|exact Hf].
+    - unfold mem_name in Hp. apply existsb_exists in Hp as (x & Hx & Hnx). apply in_map_iff in Hx as (d' & <- & Hd').
+      apply name_eqb_eq in Hnx. subst nm. rewrite (Htab d' (or_intror Hd')) in Hf. inversion Hf; subst d'.
+      rewrite forallb_forall in Hhk. specialize (Hhk d Hd').
+      apply (cover_safe d _ cS (cover_loop d Hhk)). intros r mo Hin. unfold cS. apply sub_cfgs.
+      apply (HcH _ r mo (in_hoist_loop p d _ Hd' Hin) eq_refl). }
+  (* passes *)
+  assert (Hpass : forall v h, forallb (safe cS) (snd (fst (run_pass MC inp p v h))) = true).
+  { intros v h. unfold run_pass.
+    assert (Hpoll : forallb (safe cS) (snd (poll_all inp p (p_polls p) h)) = true).
+    { apply safe_poll_all.
+      - intros b d pin r Hb Hpins. unfold button_decl in Hb.
+        destruct (find_decl b (filter is_button (p_top_setup p ++ p_top_loop p))) as [d1|] eqn:E; [|discriminate].
+        inversion Hb; subst d1. apply find_decl_some in E as [E _]. apply filter_In in E as [E Hk].
+        apply is_button_kind in Hk. apply (has_cfg_in cS (RPin pin) 2 false); [|reflexivity].
+        unfold cS. apply sub_cfgs. apply in_app_or in E as [E|E].
+        + apply (HcH (ECfg (RPin pin) 2) _ _ (in_hoist_setup p d _ E
+                   ltac:(unfold hoist_setup; rewrite Hk, Hpins; left; reflexivity)) eq_refl).
+        + apply (HcH (ECfg (RPin pin) 2) _ _ (in_hoist_loop p d _ E
+                   ltac:(unfold hoist_loop; rewrite Hk, Hpins; left; reflexivity)) eq_refl).
+      - intro f. apply (safe_handler_events tab cS (memP known) _ Hinv). intros s nm Hs Hnm.
+        apply find_func_in in Hs. unfold names_in in Hfn. rewrite forallb_forall in Hfn. apply Hfn.
+        apply in_flat_map. exists s. split; assumption. }
+    destruct (poll_all inp p (p_polls p) h) as [h1 tp]. cbn [snd] in Hpoll.
+    assert (Hu : forallb (safe cS) (tr (run_ann MC tab false (p_loop p) v)) = true).
+    { apply (loop_ann_safe tab cS (memP known) Hinv). rewrite Hpl. intros s Hs. split.
+      - apply Hndf', split_incl. right. exact Hs.
+      - intros nm Hnm. unfold names_in in Hln. rewrite forallb_forall in Hln. apply Hln.
+        apply in_flat_map. exists s. split; assumption. }
+    fold tab. destruct (run_ann MC tab false (p_loop p) v) as [[v1 tb] brk]. unfold tr in Hu. cbn [fst snd] in *.
+    rewrite !forallb_app, Hpoll, Hu, andb_true_r. cbn [andb].
+    apply forallb_forall. intros e He. unfold tick_events in He. apply in_flat_map in He as (l & _ & He).
+    apply repeat_spec in He as Hee. subst e. cbn [safe].
+    unfold anim_count in He. destruct (find_decl l (filter is_lcd (p_top_setup p))) as [d|] eqn:E; [|destruct He].
+    apply find_decl_some in E as [E Hn]. apply filter_In in E as [E Hk]. apply is_lcd_kind in Hk.
+    apply name_eqb_eq in Hn. subst l. apply (has_cfg_in cS (RLcd (d_name d)) 0 true); [|reflexivity].
+    unfold cS. apply sub_cfgs.
+    apply (HcH (ECfg (RLcd (d_name d)) 0) _ _ (in_hoist_setup p d _ E
+             ltac:(unfold hoist_setup; rewrite Hk; left; reflexivity)) eq_refl). }
+  (* assembly *)
+  unfold cbu, exec, exec_phases, run_setup. fold p. fold tab.
+  pose proof (passes_safe inp p cS n) as HP.
+  fold S in Hcs. unfold S, tr in *.
+  destruct (run_ann MC tab true (p_setup p) v0) as [[v t] brk]. cbn [fst snd] in *.
+  specialize (HP v (fold_left (fun h d => setup_sample inp d h) (p_top_setup p) h0) Hpass).
+  destruct (run_passes MC inp p n v _) as [v' tl]. cbn [fst snd] in *.
+  rewrite cbu_go_app, cbu_go_app, cfgs_app, hoists_ok. fold cH. rewrite Hcs. cbn [andb].
+  apply cbu_go_safe. exact HP.
+Qed.
+
+(* ------------------------------------------------------------------ C05: one mode per pin *)
+Definition is_cfg_ev (e : ev) : bool := match e with ECfg _ _ => true | _ => false end.
+
+Lemma functional_incl : forall l l', functional l = true -> (forall x, In x l' -> In x l) -> functional l' = true.
+Proof.
+  intros l l' H Hi. unfold functional in *. apply forallb_forall. intros a Ha. apply forallb_forall. intros b Hb.
+  rewrite forallb_forall in H. specialize (H a (Hi a Ha)). rewrite forallb_forall in H. exact (H b (Hi b Hb)).
+Qed.
+
+Lemma pin_cfgs_in : forall t p m, In (p, m) (pin_cfgs t) -> In (ECfg (RPin p) m) t.
+Proof.
+  intros t p m H. unfold pin_cfgs in H. apply in_flat_map in H as (e & He & Hx).
+  destruct e; try destruct Hx. destruct r; try destruct Hx. inversion H; subst. exact He.
+  destruct H.
+Qed.
+
+Lemma in_pm_inv : forall m pins e, In e (pm m pins) -> exists p, e = ECfg (RPin p) m /\ In p pins.
+Proof. intros m pins e H. unfold pm in H. apply in_map_iff in H as (p & <- & Hp). exists p. split; [reflexivity|exact Hp]. Qed.
+
+Lemma wr_not_cfg : forall pins r m, ~ In (ECfg r m) (wr pins).
+Proof. intros pins r m H. apply in_wr in H as (p & H & _). discriminate. Qed.
+
+Lemma modes_pm : forall d m p mo, In (ECfg (RPin p) mo) (pm m (d_pins d)) ->
+  decl_pin_modes d = map (fun q => (q, m)) (d_pins d) -> In (p, mo) (decl_pin_modes d).
+Proof.
+  intros d m p mo H Hd. apply in_pm_inv in H as (q & Hq & Hin). inversion Hq; subst. rewrite Hd.
+  apply in_map_iff. exists q. split; [reflexivity|exact Hin].
+Qed.
+
+Lemma modes_ultra : forall nm pins h p mo, In (ECfg (RPin p) mo) (ultra_cfg pins) ->
+  In (p, mo) (decl_pin_modes (mkDecl KUltra nm pins h)).
+Proof.
+  intros nm pins h p mo H. unfold decl_pin_modes. cbn [d_kind d_pins]. destruct pins as [|t [|e r]]; try destruct H.
+  - inversion H; subst. left. reflexivity.
+  - destruct H as [H|[]]. inversion H; subst. right. left. reflexivity.
+Qed.
+
+Lemma modes_inplace : forall top ins d p mo, In (ECfg (RPin p) mo) (inplace_cfg top ins d) -> In (p, mo) (decl_pin_modes d).
+Proof.
+  intros top ins [k nm pins h] p mo H. unfold inplace_cfg in H. cbn [d_kind d_pins] in H.
+  destruct k.
+  - destruct ins; [|destruct H]. apply (modes_pm (mkDecl KLed nm pins h) 1); [exact H|reflexivity].
+  - destruct ins; [|destruct H]. apply (modes_pm (mkDecl KRGB nm pins h) 1); [exact H|reflexivity].
+  - destruct H.
+  - destruct ins; [|destruct H]. apply in_app_or in H as [H|H]; [|exfalso; exact (wr_not_cfg _ _ _ H)].
+    destruct top; [destruct H|]. apply (modes_pm (mkDecl KMotor nm pins h) 1); [exact H|reflexivity].
+  - destruct H.
+  - destruct H.
+  - destruct ins; [|destruct H]. apply modes_ultra. exact H.
+  - destruct ins; destruct top; cbn [andb negb] in H; try destruct H.
+    apply (modes_pm (mkDecl KBuzzer nm pins h) 1); [exact H|reflexivity].
+  - destruct H.
+  - destruct H as [H|[]]. discriminate.
+Qed.
+
+Ltac in_list H :=
+  repeat (destruct H as [H|H]; [try discriminate; try (inversion H; subst; left; reflexivity)|]); try destruct H.
+
+Lemma modes_hoist_setup : forall d p mo, In (ECfg (RPin p) mo) (hoist_setup d) -> In (p, mo) (decl_pin_modes d).
+Proof.
+  intros [k nm pins h] p mo H. unfold hoist_setup in H. cbn [d_kind d_pins d_name] in H.
+  destruct k.
+  - destruct H.
+  - destruct H.
+  - destruct pins as [|q r]; cbn in H; in_list H.
+  - apply in_app_or in H as [H|H]; [|exfalso; exact (wr_not_cfg _ _ _ H)].
+    apply (modes_pm (mkDecl KMotor nm pins h) 1); [exact H|reflexivity].
+  - destruct pins as [|q r]; cbn in H; in_list H.
+  - apply (modes_pm (mkDecl KPot nm pins h) 0); [exact H|reflexivity].
+  - destruct H.
+  - apply (modes_pm (mkDecl KBuzzer nm pins h) 1); [exact H|reflexivity].
+  - destruct pins as [|bl r]; cbn in H; in_list H.
+  - destruct H.
+Qed.
+
+Lemma modes_hoist_loop : forall d p mo, In (ECfg (RPin p) mo) (hoist_loop d) -> In (p, mo) (decl_pin_modes d).
+Proof.
+  intros [k nm pins h] p mo H. unfold hoist_loop in H. cbn [d_kind d_pins d_name] in H.
+  destruct k.
+  - apply (modes_pm (mkDecl KLed nm pins h) 1); [exact H|reflexivity].
+  - apply (modes_pm (mkDecl KRGB nm pins h) 1); [exact H|reflexivity].
+  - destruct pins as [|q r]; cbn in H; in_list H.
+  - apply in_app_or in H as [H|H]; [|exfalso; exact (wr_not_cfg _ _ _ H)].
+    apply (modes_pm (mkDecl KMotor nm pins h) 1); [exact H|reflexivity].
+  - destruct pins as [|q r]; cbn in H; in_list H.
+  - apply (modes_pm (mkDecl KPot nm pins h) 0); [exact H|reflexivity].
+  - apply modes_ultra. exact H.
+  - destruct H.
+  - destruct H.
+  - destruct H.
+Qed.
+
+Definition origin (s : stmt) (e : ev) : Prop :=
+  exists d0 top0 ins0, In d0 (decls_stmt s) /\ In e (inplace_cfg top0 ins0 d0).
+
+Lemma uses_not_cfg : forall tab dev r m, ~ In (ECfg r m) (uses tab dev).
+Proof.
+  intros tab dev r m H. pose proof (use_uses tab dev) as Hu. rewrite forallb_forall in Hu.
+  specialize (Hu _ H). discriminate.
+Qed.
+
+Lemma cfg_origin_list : forall l,
+  Forall (fun s => forall m tab top ins d vs r mo, In (ECfg r mo) (tr (run_stmt m tab top ins d s vs)) -> origin s (ECfg r mo)) l ->
+  forall m tab top ins d vs r mo, In (ECfg r mo) (tr (run_list m tab top ins d l vs)) ->
+  exists s, In s l /\ origin s (ECfg r mo).
+Proof.
+  intros l HF. induction HF as [|s rest Hs _ IH]; intros m tab top ins d vs r mo H; [destruct H|].
+  cbn [run_list] in H. specialize (Hs m tab top ins d vs r mo).
+  destruct (run_stmt m tab top ins d s vs) as [[v1 t1] [|]].
+  - exists s. split; [left; reflexivity|apply Hs; exact H].
+  - specialize (IH m tab top ins (d ++ assigned_stmt s) v1 r mo).
+    destruct (run_list m tab top ins (d ++ assigned_stmt s) rest v1) as [[v2 t2] b2].
+    unfold tr in *. cbn [fst snd] in *. apply in_app_or in H as [H|H].
+    + exists s. split; [left; reflexivity|apply Hs; exact H].
+    + destruct (IH H) as (s' & Hs' & Ho). exists s'. split; [right; exact Hs'|exact Ho].
+Qed.
+
+Lemma origin_block : forall b s e, In s b -> origin s e ->
+  exists d0 top0 ins0, In d0 (flat_map decls_stmt b) /\ In e (inplace_cfg top0 ins0 d0).
+Proof.
+  intros b s e Hs (d0 & t0 & i0 & Hd & He). exists d0, t0, i0. split; [|exact He].
+  apply in_flat_map. exists s. split; assumption.
+Qed.
+
+Lemma cfg_origin_stmt : forall s m tab top ins d vs r mo,
+  In (ECfg r mo) (tr (run_stmt m tab top ins d s vs)) -> origin s (ECfg r mo).
+Proof.
+  intro s. induction s as [id dev|dd|x e|dv x|l| |x b IHb|cn b IHb] using stmt_ind';
+    intros m tab top ins d vs r mo H; unfold tr in H.
+  - cbn [run_stmt fst snd] in H. apply in_app_or in H as [H|[H|[]]]; [|discriminate].
+    exfalso. exact (uses_not_cfg _ _ _ _ H).
+  - cbn [run_stmt fst snd] in H. exists dd, top, ins. split; [left; reflexivity|exact H].
+  - cbn [run_stmt] in H. destruct (eval e vs). destruct H.
+  - cbn [run_stmt] in H. destruct (vread x vs). cbn [fst snd] in H. apply in_app_or in H as [H|[H|[]]]; [|discriminate].
+    exfalso. exact (uses_not_cfg _ _ _ _ H).
+  - cbn [run_stmt fst snd] in H. exfalso. exact (uses_not_cfg _ _ _ _ H).
+  - destruct H.
+  - rewrite run_if in H. destruct (vread x _) as [c0 vs1]. destruct (c0 =? 0); [destruct H|].
+    destruct (cfg_origin_list b IHb m tab false ins d vs1 r mo H) as (s' & Hs' & Ho).
+    exact (origin_block b s' _ Hs' Ho).
+  - rewrite run_for in H. revert H. generalize (pre_reset m top ins d b vs).
+    induction cn as [|k IHk]; intros v H; [destruct H|].
+    cbn [for_iter] in H. pose proof (cfg_origin_list b IHb m tab false ins d v r mo) as HL.
+    destruct (run_list m tab false ins d b v) as [[v1 t1] [|]].
+    + destruct (HL H) as (s' & Hs' & Ho). exact (origin_block b s' _ Hs' Ho).
+    + specialize (IHk v1). destruct (for_iter m tab ins d b k v1) as [[v2 t2] b2].
+      unfold tr in *. cbn [fst snd] in *. apply in_app_or in H as [H|H].
+      * destruct (HL H) as (s' & Hs' & Ho). exact (origin_block b s' _ Hs' Ho).
+      * exact (IHk H).
+Qed.
+
+Lemma cfg_origin_ann : forall l m tab ins v r mo, In (ECfg r mo) (tr (run_ann m tab ins l v)) ->
+  exists s, In s (map snd l) /\ origin s (ECfg r mo).
+Proof.
+  induction l as [|[d s] rest IH]; intros m tab ins v r mo H; [destruct H|].
+  cbn [run_ann] in H. pose proof (cfg_origin_stmt s m tab true ins d v r mo) as Hs.
+  destruct (run_stmt m tab true ins d s v) as [[v1 t1] [|]].
+  - exists s. split; [left; reflexivity|apply Hs; exact H].
+  - specialize (IH m tab ins v1 r mo). destruct (run_ann m tab ins rest v1) as [[v2 t2] b2].
+    unfold tr in *. cbn [fst snd] in *. apply in_app_or in H as [H|H].
+    + exists s. split; [left; reflexivity|apply Hs; exact H].
+    + destruct (IH H) as (s' & Hs' & Ho). exists s'. split; [right; exact Hs'|exact Ho].
+Qed.
+
+Lemma hk_not_cfg : forall t r mo, forallb is_hk t = true -> ~ In (ECfg r mo) t.
+Proof. intros t r mo H Hin. rewrite forallb_forall in H. specialize (H _ Hin). discriminate. Qed.
+
+Lemma one_mode_exec : forall inp n its,
+  functional (flat_map decl_pin_modes (p_tab (transl its))) = true -> one_mode (exec inp n its) = true.
+Proof.
+  intros inp n its Hf. unfold one_mode. apply (functional_incl _ _ Hf). intros [p mo] Hx.
+  apply pin_cfgs_in in Hx. set (pr := transl its) in *. set (tab := p_tab pr) in *.
+  assert (Hdecl : forall d0, In d0 tab -> In (p, mo) (decl_pin_modes d0) -> In (p, mo) (flat_map decl_pin_modes tab)).
+  { intros d0 H1 H2. apply in_flat_map. exists d0. split; assumption. }
+  assert (Horig : forall s, In s (all_stmts its) -> origin s (ECfg (RPin p) mo) -> In (p, mo) (flat_map decl_pin_modes tab)).
+  { intros s Hs (d0 & t0 & i0 & Hd & He). apply (Hdecl d0); [|exact (modes_inplace _ _ _ _ _ He)].
+    subst tab. change (p_tab pr) with (flat_map decls_stmt (all_stmts its)). apply in_flat_map. exists s. split; assumption. }
+  assert (Htop : forall d0, In d0 (p_top_setup pr) \/ In d0 (p_top_loop pr) -> In d0 tab).
+  { intros d0 Hd. subst tab. change (p_tab pr) with (flat_map decls_stmt (all_stmts its)).
+    apply in_flat_map. exists (SDecl d0). split; [|left; reflexivity].
+    apply split_incl. destruct Hd as [Hd|Hd]; [left|right]; apply top_decl_in; exact Hd. }
+  destruct (split_d_snd its []) as [Hs1 Hs2].
+  unfold exec, exec_phases, run_setup in Hx. fold pr in Hx. fold tab in Hx.
+  pose proof (cfg_origin_ann (p_setup pr) MC tab true v0 (RPin p) mo) as HS.
+  destruct (run_ann MC tab true (p_setup pr) v0) as [[v t] brk]. unfold tr in HS. cbn [fst snd] in HS.
+  assert (HP : forall n v h, In (ECfg (RPin p) mo) (concat (snd (run_passes MC inp pr n v h))) ->
+               In (p, mo) (flat_map decl_pin_modes tab)).
+  { clear Hx. induction n0 as [|k IHk]; intros v1 h1 H; [destruct H|].
+    cbn [run_passes] in H. unfold run_pass in H.
+    pose proof (hk_poll_all inp pr (p_polls pr) h1) as Hk.
+    destruct (poll_all inp pr (p_polls pr) h1) as [h2 tp]. cbn [snd] in Hk.
+    pose proof (cfg_origin_ann (p_loop pr) MC tab false v1 (RPin p) mo) as HL. fold tab in H.
+    destruct (run_ann MC tab false (p_loop pr) v1) as [[v2 tb] brk2]. unfold tr in HL. cbn [fst snd] in HL.
+    specialize (IHk (drop (p_locals pr) v2) h2).
+    destruct (run_passes MC inp pr k (drop (p_locals pr) v2) h2) as [v3 ts]. cbn [snd concat] in *.
+    apply in_app_or in H as [H|H]; [|exact (IHk H)].
+    apply in_app_or in H as [H|H]; [exfalso; exact (hk_not_cfg _ _ _ Hk H)|].
+    apply in_app_or in H as [H|H]; [exfalso; exact (hk_not_cfg _ _ _ (hk_ticks pr) H)|].
+    destruct (HL H) as (s & Hs & Ho). apply (Horig s); [|exact Ho].
+    apply split_incl. right. change (p_loop pr) with (snd (split_d [] its)) in Hs. rewrite Hs2 in Hs. exact Hs. }
+  specialize (HP n v (fold_left (fun h d => setup_sample inp d h) (p_top_setup pr) h0)).
+  destruct (run_passes MC inp pr n v _) as [v' tl]. cbn [fst snd] in *.
+  apply in_app_or in Hx as [Hx|Hx]; [|exact (HP Hx)].
+  apply in_app_or in Hx as [Hx|Hx].
+  - unfold hoists in Hx. apply in_app_or in Hx as [Hx|Hx]; apply in_flat_map in Hx as (d0 & Hd0 & He).
+    + apply (Hdecl d0); [apply Htop; left; exact Hd0|exact (modes_hoist_setup _ _ _ He)].
+    + apply (Hdecl d0); [apply Htop; right; exact Hd0|exact (modes_hoist_loop _ _ _ He)].
+  - destruct (HS Hx) as (s & Hs & Ho). apply (Horig s); [|exact Ho].
+    apply split_incl. left. change (p_setup pr) with (fst (split_d [] its)) in Hs. rewrite Hs1 in Hs. exact Hs.
+Qed.
+
+Lemma configured_before_use : forall inp n its,
+  transl_ok its = true -> well_placed its = true ->
+  cbu (exec inp n its) = true /\ one_mode (exec inp n its) = true.
+Proof.
+  intros inp n its Hok Hwp. split; [apply configured_before_use_cbu; assumption|].
+  apply one_mode_exec. unfold well_placed in Hwp. apply andb_true_iff in Hwp as [_ H]. exact H.
+Qed.
+
+Lemma good_well_placed : well_placed w_good = true /\ transl_ok w_good = true /\
+  cbu (exec no_input 2 w_good) = true /\ length (exec no_input 2 w_good) = 16%nat.
+Proof. vm_compute. repeat split; reflexivity. Qed.
+
+Definition odd_input : Z -> nat -> bool := fun _ k => Nat.odd k.
+
+Lemma good_housekeeping :
+  poll_pins (transl w_good) = [4] /\
+  map (firstn 3) (snd (fst (exec_phases odd_input 2 w_good))) =
+    [[EPoll 4; EHUse RSer true; EHand 9]; [EPoll 4; EUse (RPin 5) true; EMark 2]].
+Proof. vm_compute. split; reflexivity. Qed.
